@@ -12,4 +12,5 @@ def run(rep, ctx):
     reloc.run_relocate_writer(rep, g)
     reloc.run_R1(rep, g)
     from ..liveness import run_liveness
-    run_liveness(rep, ctx.fx, ['R1'])
+    if not getattr(ctx, 'variant', None):
+        run_liveness(rep, ctx.fx, ['R1'])
